@@ -22,6 +22,7 @@ type Result struct {
 	Seed      int64       `json:"seed"`
 	Prog      *Program    `json:"program"`
 	Tape      []int       `json:"tape"`
+	TapeSeed  int64       `json:"tape_seed,omitempty"`
 	Viols     []Violation `json:"violations,omitempty"`
 	Stats     Stats       `json:"stats"`
 	Trace     []string    `json:"trace,omitempty"`
@@ -106,6 +107,7 @@ func RunOne(t *testing.T, prog *Program, tape *Tape, keepTrace bool) (res *Resul
 		return runMetered(t, prog, tape, keepTrace)
 	}
 	res = &Result{Seed: prog.Seed, Prog: prog}
+	defer armWatchdog(prog, tape)()
 	before := libGoroutines()
 	var s *Sim
 	func() {
